@@ -47,7 +47,7 @@ impl FileStorage {
     }
 
     fn apply_wal(file: &mut File, wal: &mut WriteAheadLog) -> Result<(), DbError> {
-        for record in wal.records()? {
+        for record in wal.records()?.into_iter().rev() {
             Self::apply_wal_record(file, record)?;
         }
 
@@ -139,7 +139,7 @@ impl StorageData for FileStorage {
             Self::read_impl(&self.file, new_len, &mut buffer)?;
             self.wal.insert(new_len, &buffer)?;
         } else {
-            self.wal.insert(new_len, &[])?;
+            self.wal.insert(current_len, &[])?;
         }
 
         self.file.set_len(new_len)?;
@@ -148,8 +148,17 @@ impl StorageData for FileStorage {
     }
 
     fn write(&mut self, pos: u64, bytes: &[u8]) -> Result<(), DbError> {
+        if bytes.is_empty() {
+            return Ok(());
+        }
+
         let current_len = self.len();
         let end = pos + bytes.len() as u64;
+
+        if pos < current_len && current_len < end {
+            self.wal.insert(current_len, &[])?;
+        }
+
         let mut buffer = vec![0_u8; (std::cmp::min(current_len, end) - pos) as usize];
         Self::read_impl(&self.file, pos, &mut buffer)?;
         self.wal.insert(pos, &buffer)?;
